@@ -15,6 +15,7 @@ mod t_c06;
 mod t_c07;
 mod t_c08;
 mod t_c09;
+mod t_c10;
 mod t_c15;
 mod t_c11;
 mod t_c12;
@@ -32,6 +33,7 @@ pub fn t_catalogue(prop: &str) -> Option<Vec<tcommon::Scn>> {
     "C17" => Some(t_c06::release_scenarios()),
     "C07" => Some(t_c07::scenarios()),
     "C09" => Some(t_c09::scenarios()),
+    "C10" => Some(t_c10::scenarios()),
     "C15" => Some(t_c15::c15_scenarios()),
     "C16" => Some(t_c15::c16_scenarios()),
     "C11" => Some(t_c11::scenarios()),
@@ -69,7 +71,13 @@ fn check(prop: &str, tier: &str) -> i32 {
       tcommon::run_scenarios(&mut r, t_catalogue(prop).unwrap(), tier);
       report::finish(r)
     }
-    "C10" => report::finish(s_c10::check(tier)),
+    "C10" => {
+      let mut r = s_c10::check(tier);
+      r.engine = "S+T".into();
+      r.assumptions.extend(t_assumptions());
+      tcommon::run_scenarios(&mut r, t_catalogue(prop).unwrap(), tier);
+      report::finish(r)
+    }
     "C13" => {
       let mut r = s_c13::check(tier);
       r.engine = "S+T".into();
